@@ -367,6 +367,12 @@ var otherDecls = []string{
 	"type Iface interface {\n\tDo() // @tag valid:\"method\"\n}",
 	"type Alias = Other",
 	"type Gen[T any] struct {\n\tV T `json:\"v\"`\n}",
+	"func nanotime() int64 // implemented in assembly: a declaration without a body",
+	"//go:linkname runtimeNano runtime.nanotime\nfunc runtimeNano() int64",
+	"func (o *Other) String() string { return \"\" }",
+	"func init() {}",
+	"var _ = func() int {\n\treturn 0 // @tag valid:\"in a function literal\"\n}()",
+	"type (\n\tPair struct {\n\t\tL int `json:\"l\"`\n\t}\n\tCount int\n)",
 }
 
 func genSrcFile(t *rapid.T, name string, minAnnotated int) *SrcFile {
